@@ -130,6 +130,10 @@ def run_case(tree, newname, oldname, mode, kind):
 
 
 def main():
+    if REPLAY is not None and REPLAY.get("kind") == "rekey":
+        import c02_battery
+        pr, _kn = c02_battery.run_history([tuple(o) for o in REPLAY["ops"]], True)
+        replay_result(bool(pr), pr[:2])
     if REPLAY is not None:
         tree = tuple((tuple(r), k) for r, k in REPLAY["tree"])
         pr = run_case(tree, REPLAY["new"], REPLAY["old"], REPLAY["mode"], REPLAY["kind"])
@@ -149,10 +153,19 @@ def main():
                         if TIER == "quick" and (kind == "bytes") != (mode == "abs"):
                             continue
                         pr = run_case(tree, new, old, mode, kind)
-                        bat.case(hash((tree, new, old, mode, kind)), nontrivial=bool(tree))
+                        bat.case(hash((tree, new, old, mode, kind)), nontrivial=bool(tree), desc={"tree": [["/".join(r), k] for r, k in tree], "new": new, "old": old, "root": mode, "type": kind})
                         if pr:
                             bat.fail("C14.sub-events", pr[0], {"tree": [[list(r), k] for r, k in tree], "new": new, "old": old, "mode": mode, "kind": kind, "problems": pr[:3]}, "generate_sub_moved_events")
+    # third anchor of the property: the same prefix rewrite in the watch-path map of Inotify.read_events
+    os.environ["C02_BATTERY_PROP"] = "C14"
+    import c02_battery
+    for name, ops in c02_battery.NAMED.items():
+        bat.case(("rekey", name))
+        pr, _kn = c02_battery.run_history(list(ops), True)
+        if pr:
+            bat.fail("C14.watch-map-rekey", pr[0], {"kind": "rekey", "ops": [list(o) for o in ops]}, "Inotify.read_events")
     bat.finish()
 
 
-main()
+if __name__ == "__main__":
+    main()
